@@ -27,10 +27,10 @@ func init() {
 }
 
 func runC23(c *engine.Ctx) {
-	r1 := c.Rule("R1", "PushTask <=> state = Queued on the same handler path", 4)
-	r2 := c.Rule("R2", "state = Running only on the non-empty task-start path", 2)
-	r3 := c.Rule("R3", "TaskDone in a finish handler is followed by the entry leaving Running on every path; empty-task TaskDone only for empty tasks", 4)
-	r4 := c.Rule("R4", "Paused only after a pause error released the task or at unqueued creation; only defined states are stored; peer-state report reads table and queue together", 5)
+	r1 := c.Rule("R1", "PushTask <=> state = Queued on the same handler path", 2)
+	r2 := c.Rule("R2", "state = Running only on the non-empty task-start path", 1)
+	r3 := c.Rule("R3", "TaskDone in a finish handler is followed by the entry leaving Running on every path; empty-task TaskDone only for empty tasks", 2)
+	r4 := c.Rule("R4", "Paused only after a pause error released the task or at unqueued creation; only defined states are stored; peer-state report reads table and queue together", 2)
 
 	for _, rel := range []string{"requestmanager", "responsemanager"} {
 		m := loadMgr(c, r1, rel)
@@ -123,7 +123,17 @@ func runC23(c *engine.Ctx) {
 				b, isC := engine.ConstBool(st.Val)
 				return isC && b
 			}, nil)
-			returnsTask := f.Signature.Results().Len() == 1 && emptyF != nil
+			// the function hands out the executor's task struct (the one carrying the Empty flag)
+			returnsTask := false
+			if f.Signature.Results().Len() == 1 && emptyF != nil {
+				if st, ok := f.Signature.Results().At(0).Type().Underlying().(*types.Struct); ok {
+					for i := 0; i < st.NumFields(); i++ {
+						if st.Field(i) == emptyF {
+							returnsTask = true
+						}
+					}
+				}
+			}
 			// and the caller marks the task done iff Empty (checked in R3)
 			c.Decide(r2, fmt.Sprintf("%s|state=Running", engine.FuncName(f)), s.st.Pos(), returnsTask && !emptyAfter,
 				"Running is set only where a non-empty task is handed to the executor",
